@@ -6,6 +6,19 @@ import os
 V = os.path.dirname(os.path.dirname(os.path.abspath(__file__)))
 
 CHECKS = {
+    'C01': dict(
+        engine='oracle-server enumeration + libFuzzer fork-mode targets (harness/cpp/fz_*.cpp)',
+        technique='single-fault XML mutation enumeration + coverage-guided fuzzing (libFuzzer, ASan+UBSan) with a crash/clean-rejection oracle and CPU-time confirmation of hangs',
+        category='exploration',
+        text=('Every parsing entry point is driven with (1) every single structural edit of four seed documents under both '
+              'syntax switches and the document/pretty back ends, (2) libFuzzer fork-mode campaigns over XML, XTA, query and '
+              'per-block inputs with a keyword/tag dictionary, (3) a CPU-time scaling probe; the oracle is: the call returns or '
+              'throws std::exception, sanitizers stay silent, no child dies, no confirmed CPU time-out. Exploration: layer 1 is '
+              'exhaustive for its edit space, the rest is sampled.'),
+        design_ref='DESIGN.md 4/C01',
+        note=('Deciding build: clang 14 -O1 -DNDEBUG + ASan/UBSan (asserts off as in the RelWithDebInfo baseline). Leaks are '
+              'not checked. libxml2 itself is uninstrumented. Time-outs count only after three confirmations on CPU time.'),
+    ),
     'C18': dict(
         engine='rapidcheck + exhaustive loops (harness/cpp/c18.cpp)',
         technique='exhaustive enumeration over int8_t + rapidcheck property-based testing over int32_t/double against set semantics in wide arithmetic',
